@@ -15,8 +15,8 @@ import (
 	"google.golang.org/protobuf/types/known/timestamppb"
 
 	"github.com/drand/drand/v2/internal/dkg"
-	"github.com/drand/drand/v2/zzverif/emit"
 	pdkg "github.com/drand/drand/v2/protobuf/dkg"
+	"github.com/drand/drand/v2/zzverif/emit"
 	kdkg "github.com/drand/kyber/share/dkg"
 )
 
@@ -31,11 +31,11 @@ type spec struct {
 type result struct {
 	extra      []emit.MonitorFailure // failures found by a history itself (concurrent runs)
 	unreadable string
-	spec  spec
-	cases []*node
-	w     *world
-	notes []string
-	cut   bool
+	spec       spec
+	cases      []*node
+	w          *world
+	notes      []string
+	cut        bool
 }
 
 func tmpBase() string {
@@ -108,6 +108,10 @@ func runHistory(sp spec, tmp string) (res *result, err error) {
 		h.directedConcurrent()
 	case "d-near-miss-address":
 		h.directedNearMissAddress()
+	case "d-stale-first-epoch":
+		h.directedStaleFirstEpoch()
+	case "d-duplicate-member-address":
+		h.directedDuplicateMemberAddress()
 	case "gen":
 		for k := 0; k < 2+h.rng.Intn(2) && !h.cut; k++ {
 			h.attempt()
@@ -405,9 +409,9 @@ func (h *hist) directedConcurrent() {
 	final := mustSnapshot(h.w.nodes[1])
 	in := map[string]interface{}{"history": h.id, "node": "n1", "start": startState + " (finished " + finState + ")",
 		"concurrent": []string{"cmd-" + cmdKind + " -> " + clsCmd, "pkt-" + pktKind + " from the leader, delivered between the command's load and save -> " + clsPkt},
-		"persisted": saved, "final": final.cur.state,
+		"persisted":  saved, "final": final.cur.state,
 		"sequential command-first (n2)": []string{sa.class, sb.class, sb.after.cur.state},
-		"sequential packet-first (n3)": []string{ta.class, tb.class, ta.after.cur.state}}
+		"sequential packet-first (n3)":  []string{ta.class, tb.class, ta.after.cur.state}}
 	// (i) every persisted step is legal
 	prev := startState
 	for _, st := range saved {
@@ -423,7 +427,9 @@ func (h *hist) directedConcurrent() {
 		prev = st
 	}
 	// (ii) the outcome is that of some sequential order
-	same := func(cmdCls, pktCls, state string) bool { return cmdCls == clsCmd && pktCls == clsPkt && state == final.cur.state }
+	same := func(cmdCls, pktCls, state string) bool {
+		return cmdCls == clsCmd && pktCls == clsPkt && state == final.cur.state
+	}
 	if !same(sa.class, sb.class, sb.after.cur.state) && !same(ta.class, tb.class, ta.after.cur.state) {
 		h.extra = append(h.extra, emit.MonitorFailure{Class: "C08-command-and-packet-not-serialised",
 			What: "concurrent command and packet: answers and final state match neither sequential order of the two operations", Input: in})
@@ -466,6 +472,73 @@ func (h *hist) directedNearMissAddress() {
 		p.Metadata.Address = v
 		h.packet(1, p, "abort:near-miss-address "+v, "outsider")
 	}
+}
+
+// a node with a completed epoch N gets first-epoch proposals (epoch 1, joiners only, no seed): by the
+// operator's "initial" command at the old leader and as a correctly signed packet at members; all
+// must be refused (also for N = 1), and the genuine N+1 proposal accepted afterwards.
+func (h *hist) directedStaleFirstEpoch() {
+	n := uint32(1 + h.id%3)
+	h.fabricate([]int{0, 1, 2}, 2, n)
+	leader := h.w.ids[0]
+	h.command(0, h.initialCmd(0, []int{0, 1, 2}, ""), "cmd-initial at a node with a completed epoch", "leader", false)
+	mk := func(joiners []int) *pdkg.GossipPacket {
+		t := &pdkg.ProposalTerms{BeaconID: beaconID, Threshold: uint32(minT(len(joiners))), Epoch: 1, Timeout: h.farTimeout(),
+			Leader: proto.Clone(leader.part).(*pdkg.Participant), SchemeID: h.w.sch.Name, BeaconPeriodSeconds: 30, CatchupPeriodSeconds: 5,
+			GenesisTime: timestamppb.New(time.Now().Add(time.Hour).Truncate(time.Second)), Joining: h.parts(joiners)}
+		return h.proposalPacket(t, leader, leader.part.Address)
+	}
+	h.packet(1, mk([]int{0, 1, 2}), "proposal:first-epoch at a node with a completed epoch", "leader")
+	h.packet(2, mk([]int{0, 1, 2, 3}), "proposal:first-epoch at a node with a completed epoch", "leader")
+	// and after an aborted attempt (fall-back to the finished record)
+	s := reshareSpec{leader: 0, remaining: []int{0, 1, 2}, thr: 2}
+	_, prop := h.command(0, h.reshareCmd(s, ""), "cmd-reshare", "leader", false)
+	h.packet(1, prop, "proposal", "leader")
+	_, ab := h.command(0, simpleCmd("abort"), "cmd-abort", "leader", false)
+	h.packet(1, ab, "abort", "leader")
+	h.packet(1, mk([]int{0, 1, 2}), "proposal:first-epoch after an aborted attempt", "leader")
+	h.command(0, h.initialCmd(0, []int{0, 1, 2}, ""), "cmd-initial after an aborted attempt", "leader", false)
+	// the real next epoch still goes through
+	_, prop2 := h.command(0, h.reshareCmd(s, ""), "cmd-reshare", "leader", false)
+	h.packet(1, prop2, "proposal", "leader")
+	h.packet(2, prop2, "proposal", "leader")
+}
+
+// one member address twice under different keys: a forged entry {n0's address, attacker key} comes
+// FIRST in Remaining and is the Leader, the genuine n0 entry is in Leaving or later in Remaining; the
+// packet claims n0 and is signed with the attacker's key. A member must refuse it: it authenticates
+// members against the keys of its current group.
+func (h *hist) directedDuplicateMemberAddress() {
+	h.fabricate([]int{0, 1, 2}, 2, uint32(1+h.rng.Intn(3)))
+	x := h.attacker()
+	forgedEntry := &pdkg.Participant{Address: h.w.ids[0].part.Address, Key: x.part.Key, Signature: x.part.Signature}
+	genuine := h.parts([]int{0})[0]
+	sp := mustSnapshot(h.w.nodes[1])
+	mk := func(remaining, leaving []*pdkg.Participant, leader *pdkg.Participant) *pdkg.ProposalTerms {
+		return &pdkg.ProposalTerms{BeaconID: beaconID, Threshold: uint32(minT(len(remaining))), Epoch: sp.raw.cur.Epoch + 1, Timeout: h.farTimeout(),
+			Leader: proto.Clone(leader).(*pdkg.Participant), SchemeID: h.w.sch.Name, BeaconPeriodSeconds: 30, CatchupPeriodSeconds: 5,
+			GenesisTime: timestamppb.New(h.gen), GenesisSeed: h.seed, Remaining: remaining, Leaving: leaving}
+	}
+	others := h.parts([]int{1, 2})
+	variants := []struct {
+		name string
+		t    *pdkg.ProposalTerms
+	}{
+		{"genuine entry in leaving", mk(append([]*pdkg.Participant{forgedEntry}, others...), []*pdkg.Participant{genuine}, forgedEntry)},
+		{"genuine entry later in remaining", mk(append([]*pdkg.Participant{forgedEntry, genuine}, others...), nil, forgedEntry)},
+		{"genuine entry later in remaining, genuine leader field", mk(append([]*pdkg.Participant{forgedEntry, genuine}, others...), nil, genuine)},
+		{"forged entry in leaving, genuine first", mk(append([]*pdkg.Participant{genuine}, others...), []*pdkg.Participant{forgedEntry}, genuine)},
+	}
+	for _, target := range []int{1, 2} {
+		for _, v := range variants {
+			h.packet(target, h.proposalPacket(v.t, x, forgedEntry.Address), "forged-proposal:duplicate-member-address ("+v.name+") signed with the planted key", "outsider")
+		}
+	}
+	// the genuine leader's proposal is accepted afterwards
+	s := reshareSpec{leader: 0, remaining: []int{0, 1, 2}, thr: 2}
+	_, prop := h.command(0, h.reshareCmd(s, ""), "cmd-reshare", "leader", false)
+	h.packet(1, prop, "proposal", "leader")
+	h.packet(2, prop, "proposal", "leader")
 }
 
 // swapKey returns the genuinely signed proposal with the KEY of the k-th joiner replaced by the
@@ -702,7 +775,7 @@ func Run(name, prop string) func(outDir string, seed int64, tier string) error {
 				specs = append(specs, spec{id: len(specs), kind: kind, seed: rng.Int63()})
 			}
 		}
-		for _, wk := range []string{"w-fresh-epoch", "w-left-panic", "w-key-subst", "w-nonleader-exec", "w-nil-leader", "w-unsigned-key", "w-member-epoch", "d-exec-setup", "d-shadow-joiner", "d-below-old-thr", "d-joiner-key-swap", "d-joiner-key-swap", "d-timeout-abandon", "d-concurrent", "d-concurrent", "d-concurrent", "d-near-miss-address"} {
+		for _, wk := range []string{"w-fresh-epoch", "w-left-panic", "w-key-subst", "w-nonleader-exec", "w-nil-leader", "w-unsigned-key", "w-member-epoch", "d-exec-setup", "d-shadow-joiner", "d-below-old-thr", "d-joiner-key-swap", "d-joiner-key-swap", "d-timeout-abandon", "d-concurrent", "d-concurrent", "d-concurrent", "d-near-miss-address", "d-stale-first-epoch", "d-stale-first-epoch", "d-duplicate-member-address"} {
 			add(wk, 1)
 		}
 		nGen, nFab, nKy, nSleep := 24, 44, 5, 4
